@@ -746,7 +746,13 @@ impl C17 {
     }
 }
 
-pub fn directed() -> Vec<(&'static str, Vec<&'static str>)> {
+/// (built once per process: it is asked for several times per case, and one of its sessions has 65 000 lines)
+pub fn directed() -> &'static Vec<(&'static str, Vec<&'static str>)> {
+    static D: std::sync::OnceLock<Vec<(&'static str, Vec<&'static str>)>> = std::sync::OnceLock::new();
+    D.get_or_init(directed_sessions)
+}
+
+fn directed_sessions() -> Vec<(&'static str, Vec<&'static str>)> {
     vec![
         ("retained-int", vec!["stel a = 100", "a"]),
         ("function-replaced-by-a-line-without-declarations", vec!["stel f = functie(x) { x + 1 }", "stel g = functie(x) { x - 1 }", "f = functie(x) { x * 2 }", "g(21)", "f(21)", "stel h = functie(x) { x * x }", "[f(3), g(3), h(3)]"]),
